@@ -31,6 +31,12 @@ def domainTree (t : T) : Bool := t.uniqueTips && t.noSingle && decide (2 ≤ t.k
     these trees too; the theorems are about `domainTree`. -/
 def domainTreeWide (t : T) : Bool := t.uniqueTips && decide (2 ≤ t.kids.length)
 
+/-- … and, since the code re-roots them (5a3a76a), the trees rooted at a tip whose neighbour is
+    not a tip: the root is a taxon like the others (`T.tipNames` lists it). -/
+def domainTreeTip (t : T) : Bool :=
+  t.uniqueTips && (decide (2 ≤ t.kids.length) ||
+    (match t.kids with | [(_, v)] => !v.kids.isEmpty | _ => false))
+
 def allLens (ts : List T) : Bool := ts.all fun t => t.edges.all fun e => e.len != NIL
 
 /-- number of trees containing the split -/
@@ -76,9 +82,13 @@ def inRange (c : Rat) : Bool := decide (1/2 ≤ c) && decide (c ≤ 1)
 def demanded (ts : List T) (c : Rat) : Option Bool :=
   if !inRange c then some false
   else if ts.isEmpty then none
-  else if !(ts.all domainTreeWide) then none
+  else if !(ts.all domainTreeTip) then none
   else if !sameTaxa ts then some false
   else some true
+
+/-- the printing by which `canonSet` sorts distinguishes the sides that occur (hypothesis of
+    the literal equality `splitsOK`; it can only fail for names that contain ", ") -/
+def keysOK (ts : List T) : Bool := decide (((allSides ts).map fun s => toString s).Nodup)
 
 /-- the observation `obs_C09` of a consensus tree -/
 def obs (r : T) : List String × List USplit × List (List String × Rat) :=
